@@ -184,6 +184,7 @@ func workerMain(args []string) int {
 		}
 		for _, v := range vs {
 			st.NFound++
+			v.Detail = clipDetail(v.Detail)
 			if len(st.Found) < 40 {
 				fsc := sc
 				if v.Pinned != nil {
@@ -208,6 +209,15 @@ func workerMain(args []string) int {
 		return 2
 	}
 	return 0
+}
+
+// clipDetail bounds a violation's text (scale cases carry statements of
+// megabytes; the replay file holds the whole scenario anyway).
+func clipDetail(d string) string {
+	if len(d) <= 3000 {
+		return d
+	}
+	return d[:2400] + fmt.Sprintf(" …(%d bytes omitted)… ", len(d)-2800) + d[len(d)-400:]
 }
 
 // ---------------------------------------------------------------------------
@@ -652,11 +662,40 @@ func replayMain(args []string) int {
 	return 0
 }
 
+// memoryGuard: the sandbox has no memory limit, and a defect (of kvql under a
+// seeded change, or of this harness) that allocates without bound would take
+// the machine down. Every process of the harness polls its own resident set
+// and exits with status 2 (infrastructure trouble, never a violation) beyond
+// VERIF_MEM_MB megabytes (default 12000).
+func memoryGuard() {
+	limit := 12000
+	if v, err := strconv.Atoi(os.Getenv("VERIF_MEM_MB")); err == nil && v > 0 {
+		limit = v
+	}
+	for {
+		time.Sleep(300 * time.Millisecond)
+		b, err := os.ReadFile("/proc/self/statm")
+		if err != nil {
+			return
+		}
+		f := strings.Fields(string(b))
+		if len(f) < 2 {
+			return
+		}
+		pages, _ := strconv.Atoi(f[1])
+		if mb := pages * (os.Getpagesize() / 1024) / 1024; mb > limit {
+			fmt.Fprintf(os.Stderr, "INFRA: process %d (%s) exceeded %d MB resident (%d MB); giving up\n", os.Getpid(), strings.Join(os.Args[1:], " "), limit, mb)
+			os.Exit(2)
+		}
+	}
+}
+
 func main() {
 	if len(os.Args) < 2 {
 		fmt.Fprintln(os.Stderr, "usage: simkv check|worker|replay|selftest ...")
 		os.Exit(2)
 	}
+	go memoryGuard()
 	switch os.Args[1] {
 	case "check":
 		os.Exit(checkMain(os.Args[2:]))
